@@ -85,7 +85,8 @@ def from_bytes_clause(chk, F):
     fts = factory_types(F)
     chk.floor('factory_impls', 2, len(fts))
     for ty, im in fts:
-        ov = [it['name'] for it in im['items'] if it['name'] in defaults]
+        # (an overriding `from_bytes` is what the from-bytes obligations below interpret for that type)
+        ov = [it['name'] for it in im['items'] if it['name'] in defaults and not (it['name'] == 'from_bytes' and chk.pid == 'C01')]
         chk.ob('%s/factory-overrides/%s/%s' % (chk.pid, cfg, ty['path'].split('::')[-1]), 'override inventory',
                'proved' if not ov else 'unproven', subject={'at': im['span']['at'], 'config': cfg},
                expected='no default method of ShortMessageFactory is overridden', found=ov,
@@ -96,8 +97,14 @@ def from_bytes_clause(chk, F):
 
         def ev(sub=sub, key=key, label=label):
             fk = H.SMF + '::from_bytes'
+            sub2 = sub
+            if label != 'abstract':
+                from ..models import find_impl
+                hit = find_impl(Interp(F), H.SMF, 'from_bytes', sub)
+                if hit:
+                    fk, sub2 = hit
             st = fresh_state(F, H.base_cons())
-            I, outs = call(F, fk, [bytes_tuple()], sub, st)
+            I, outs = call(F, fk, [bytes_tuple()], sub2, st)
             okset, errset = VS.of([]), VS.of([])
             status, why = 'proved', ''
             for o in outs:
